@@ -29,7 +29,7 @@ TraceTables ==
     /\ TablesOK(Traces[tid].hdr.doc, Traces[tid].hdr.fmt, Ev.tables, Dev)
 
 \* typed data row of a generated sheet (second row of the sheet's table)
-TraceTyped == IsEvent("Typed") /\ TypedRowOK(Ev.kinds, Ev.row)
+TraceTyped == IsEvent("Typed") /\ TypedRowOK(Ev.kinds, Ev.row, Traces[tid].hdr.fmt, Dev)
 
 TraceInit == tid \in 1..Len(Traces) /\ l = 1
 TraceNext == TraceText \/ TraceUnits \/ TraceTables \/ TraceTyped
